@@ -92,6 +92,25 @@ def register(op):
 
     register_c12(op)
 
+    @op("c09_split_twice_witness")
+    def _(a):
+        """recorded finding: the second split() raises although every component is live, because the next
+        automatic name is the name of another live complex"""
+        fresh()
+        da, db = bc.DomainS("a", 7), bc.DomainS("b", 7)
+        bc.ComplexS.ID = 1
+        x = bc.ComplexS([~da, da], list("()"), "c3")
+        c = bc.ComplexS([~da, da, "+", ~da, da, db], list("()+..."), "c2")
+        first = list(c.split())
+        try:
+            second = list(c.split())
+            res = ["ok", all(p is q for p, q in zip(first, second)) and len(first) == len(second)]
+        except SingletonError as e:
+            res = ["raised", e.existing is None]
+        del first, x, c
+        fresh()
+        return res
+
     @op("c03_history")
     def _(a):
         seq, struct, ops = a
